@@ -31,6 +31,11 @@ struct vhm { struct blk* data_block; };
 struct vit { struct blk* block; struct bkt* current_bucket; bstate_t current_bucket_state; uint32_t index; struct ext* extension; struct ext** prev; };
 struct accessor { uint64_t v; };
 struct kv { uint64_t first, second; };
+/* the C++ names of these types, for text that spells a type out instead of `auto` (declarations only: `bucket_state(...)` constructor calls and
+ * `iterator result;` are rewritten by the unit's rules; std::atomic<T> is T, see TYPE_SUBST in unit.py).  The engine also reads these typedefs
+ * as the C types of helper signatures it follows. */
+typedef bstate_t bucket_state; typedef struct bkt bucket; typedef struct ext extension_item; typedef struct blk block; typedef struct blk* guarded_block;
+typedef struct vit iterator; typedef struct accessor accessor; typedef uint64_t hash_t; typedef uint64_t key_type; typedef uint64_t value_type;
 
 /* ---- glue for the lowered text ---- */
 #define XV_FLS(x) ((x) >= 4 ? 3 : (x) >= 2 ? 2 : (x) >= 1 ? 1 : 0)   /* utils::find_last_bit_set for the constant bucket_item_count (< 8) */
@@ -51,6 +56,10 @@ static void vit_reset(struct vit* self);
 static void vit_move_to_next_bucket(struct vit* self);
 static void vit_move_to_next_bucket_cut(struct vit* self);
 #define VIT_MNB(it) vit_move_to_next_bucket(&(it))
+/* by-reference parameters: the macros take the addresses C++ takes implicitly, whatever the argument expressions are */
+#define VHM_LOCK_BUCKET(self, h, blk, st) vhm_lock_bucket((self), (h), &(blk), &(st))
+#define TR_COMPARE_KEY(A, kc, vc, k, h, acc) TR_compare_key((A), &(kc), &(vc), (k), (h), &(acc))
+#define TR_DEREF_ITERATOR(k, v) TR_deref_iterator(&(k), &(v))
 uint64_t in_hash;                                /* hash{}(key): one uninterpreted value (each harness hashes one key) */
 #define XV_HASH(k) (in_hash)
 
@@ -66,13 +75,24 @@ _Bool freed[LP]; unsigned free_count; int g_focus;   /* bucket that owns pool E 
 static void xv_free_ext(struct ext* item);
 #define XV_FREE_EXT(item) xv_free_ext(item)
 
-/* ---- loop cuts (INT runs) ---- */
+/* ---- loop cuts (INT runs) ----
+ * The spin loops are found by what they do (the loop around the locking CAS, rule spin_cut in unit.py), not by position, and the cut of the
+ * move_to_next_bucket loop is written over ghost state only, so that it means the same whether the loop stands in move_to_next_bucket itself or in a
+ * helper a maintainer moved it to (a helper is lowered with the caller's rules): invariant = "the set of buckets this thread holds is what it was when
+ * the loop was entered" (snapshot taken by the entry hook the rule emits); havoc = the iterator's copy of the bucket state, through the ghost pointer
+ * to the iterator under test (the only thing the loop writes that outlives an iteration; every other write is to a body-local). */
 _Bool env_on;
+#define XV_LOOP_ENTER_LOCKB (void)0
 #define XV_INV_LOCKB (mon_nothing_held())
 #define XV_HAVOC_LOCKB (*block_p) = (nondet_bool() ? &G : 0); (*state_p) = nondet_u32() /* bucket bucket_p st bucket_idx: body-local; bucket.state: written only by the CAS itself */
-#define XV_INV_MNB (mon_only_held(old_bucket))
-#define XV_HAVOC_MNB self->current_bucket_state = nondet_u32() /* st: body-local; current_bucket state: only by CAS */
+struct vit* g_it;               /* the iterator under test (h_mnb / h_mnb_int) */
+_Bool held_at_entry[NB];
+#define XV_LOOP_ENTER_MNB mon_snap_held()
+#define XV_INV_MNB (mon_held_as_at_entry())
+#define XV_HAVOC_MNB g_it->current_bucket_state = nondet_u32() /* st: body-local; current_bucket state: only by CAS */
 static _Bool mon_nothing_held(void);
+static void mon_snap_held(void);
+static _Bool mon_held_as_at_entry(void);
 static _Bool mon_only_held(struct bkt* b);
 
 #include "lowered.h"
@@ -136,6 +156,8 @@ static void mon_cas(void* addr, uint64_t e, uint64_t d, _Bool ok, int o) {
   held[j] = 1; lock_clock[j] = xv_clock; lock_count[j]++; shadow[j] = (bstate_t)d;
 }
 static _Bool mon_nothing_held(void) { for (unsigned j = 0; j < NB; j++) if (held[j]) return 0; return 1; }
+static void mon_snap_held(void) { for (unsigned j = 0; j < NB; j++) held_at_entry[j] = held[j]; }
+static _Bool mon_held_as_at_entry(void) { for (unsigned j = 0; j < NB; j++) if (held[j] != held_at_entry[j]) return 0; return 1; }
 static _Bool mon_only_held(struct bkt* b) { for (unsigned j = 0; j < NB; j++) if (held[j] != (b == &G.bks[j])) return 0; return 1; }
 static int pool_idx(struct ext* p) { for (unsigned i = 0; i < L; i++) if (p == &E[i]) return (int)i; return -1; }
 static void xv_free_ext(struct ext* item) {
@@ -456,7 +478,8 @@ static void mnb_common(void) {
   in_cb = CB; in_count = nondet_uint(); in_ver = nondet_u32();
   havoc_world(in_cb, in_count, 0, in_ver);
   struct bkt* b = &G.bks[in_cb];
-  struct vit it; it.block = &G; it.current_bucket = b;
+  struct vit it; it.block = &G; it.current_bucket = b; g_it = &it;
+  for (unsigned j = 0; j < NB; j++) held_at_entry[j] = nondet_bool();
   it.current_bucket_state = b->state; b->state = BS_locked(b->state); shadow[in_cb] = b->state; held[in_cb] = 1;
   it.index = nondet_u32(); it.extension = nondet_bool() ? &E_other : 0; it.prev = nondet_bool() ? &b->head : 0;   /* any position: the function does not look at it */
   struct blk g0 = G; g0.bks[in_cb].state = it.current_bucket_state; bstate_t cbs0 = it.current_bucket_state;
